@@ -65,7 +65,7 @@ def arg_matches(decl, ctype, nested):
             return True, ''
         return False, 'type(c_ptr) against C `%s`' % ctype
     if t.startswith('character'):
-        if t not in ('character(c_char)', 'character(kind=c_char)'):
+        if t.replace(' ', '') not in ('character(c_char)', 'character(kind=c_char)', 'character(kind=c_char,len=1)', 'character(len=1,kind=c_char)'):
             return None, 'character kind `%s` not in the closed table' % t
         if decl['value']:
             ok = ctype == 'char'
